@@ -331,17 +331,30 @@ def ignoreLive (now : Int) (e : Str × Int) : Bool := !(e.2 != 0 && decide (now 
 def IgnoreDb.check (ig : IgnoreDb) (now : Int) (h : Str) : Bool :=
   ig.entries.any (fun e => ignoreLive now e && glob e.1 h)
 
-/-- `ircdb.checkIgnored(hostmask)` with the default `recipient=''` (what `Owner.doPrivmsg` calls).
+/-- the part of `ircdb.checkIgnored` before the recipient test: `some b` = it returns `b` here
+(a trusted user, owners included, is never ignored; `defaultIgnore`, the user's ignore flag and the
+ignore database make it return `True`), `none` = it falls through to the recipient's channel record.
 `getUserId` raising DuplicateHostmask (a ValueError) is not caught there. -/
-def checkIgnored (db : Db) (ig : IgnoreDb) (defaultIgnore : Bool) (now : Int) (h : Str) : R Bool :=
+def ignoredGlobal (db : Db) (ig : IgnoreDb) (defaultIgnore : Bool) (now : Int) (h : Str) : R (Option Bool) :=
   match db.lookup now h with
   | .duplicate => .error .value
-  | .missing => if defaultIgnore then .ok true else .ok (ig.check now h)
+  | .missing =>
+    if defaultIgnore then .ok (some true)
+    else if ig.check now h then .ok (some true) else .ok none
   | .found u =>
     match u.checkCapability trustedS with
-    | .ok true => .ok false
-    | .error .key | .ok false => if u.ignore then .ok true else .ok (ig.check now h)
+    | .ok true => .ok (some false)
+    | .error .key | .ok false =>
+      if u.ignore then .ok (some true)
+      else if ig.check now h then .ok (some true) else .ok none
     | .error e => .error e
+
+/-- `ircdb.checkIgnored(hostmask)` with the default `recipient=''` (what `Owner.doPrivmsg` calls) -/
+def checkIgnored (db : Db) (ig : IgnoreDb) (defaultIgnore : Bool) (now : Int) (h : Str) : R Bool :=
+  match ignoredGlobal db ig defaultIgnore now h with
+  | .error e => .error e
+  | .ok (some b) => .ok b
+  | .ok none => .ok false
 
 /-- what `Owner.doPrivmsg` does with an addressed message -/
 inductive Dispatch
@@ -358,6 +371,53 @@ def ownerDoPrivmsg (db : Db) (ig : IgnoreDb) (defaultIgnore : Bool) (now : Int) 
   | .ok true => .silent
   | .ok false => .dispatch
   | .error e => .crashed e
+
+/-- the part of an `IrcChannel` record its `checkIgnored` looks at: `(pattern, expiration)` lists -/
+structure ChanIgn where
+  lobotomized : Bool := false
+  bans : List (Str × Int) := []
+  ignores : List (Str × Int) := []
+deriving Repr
+
+/-- `now < expiration or not expiration` (a channel ban / ignore that is still in force) -/
+def banLive (now : Int) (e : Str × Int) : Bool := decide (now < e.2) || e.2 == 0
+
+/-- `IrcChannel.checkIgnored(hostmask)` with `world.testing = False` (truth value; expired entries
+are deleted as a side effect) -/
+def ChanIgn.check (c : ChanIgn) (now : Int) (h : Str) : R Bool :=
+  if c.lobotomized then .ok true
+  else if !isUserHostmask h then .error .assertion
+  else .ok (c.bans.any (fun e => banLive now e && glob e.1 h) ||
+            c.ignores.any (fun e => banLive now e && glob e.1 h))
+
+/-- `ircdb.checkIgnored(hostmask, recipient)`: the global test, then the recipient channel's -/
+def checkIgnoredIn (db : Db) (ig : IgnoreDb) (defaultIgnore : Bool) (now : Int) (h : Str)
+    (recipient : Option Str) (chan : Str → ChanIgn) : R Bool :=
+  match ignoredGlobal db ig defaultIgnore now h with
+  | .error e => .error e
+  | .ok (some b) => .ok b
+  | .ok none =>
+    match recipient with
+    | none => .ok false
+    | some ch => if isChannel ch then (chan ch).check now h else .ok false
+
+/-- `PluginMixin.__call__` for a PRIVMSG: is the message handed to the plugin at all?  (`Owner`, the
+dispatcher, is such a plugin with `noIgnore = False`.) -/
+def pluginSees (db : Db) (ig : IgnoreDb) (defaultIgnore : Bool) (now : Int) (h : Str)
+    (recipient : Option Str) (chan : Str → ChanIgn) (noIgnore : Bool) : R Bool :=
+  if noIgnore || h.isEmpty || !isUserHostmask h then .ok true
+  else match checkIgnoredIn db ig defaultIgnore now h recipient chan with
+    | .error e => .error e
+    | .ok b => .ok (!b)
+
+/-- the whole path of an addressed PRIVMSG to the dispatcher: `PluginMixin.__call__` of `Owner`,
+then the test of `Owner.doPrivmsg` -/
+def received (db : Db) (ig : IgnoreDb) (defaultIgnore : Bool) (now : Int) (h : Str)
+    (recipient : Option Str) (chan : Str → ChanIgn) : Dispatch :=
+  match pluginSees db ig defaultIgnore now h recipient chan false with
+  | .error e => .crashed e
+  | .ok false => .silent
+  | .ok true => ownerDoPrivmsg db ig defaultIgnore now h
 
 /-! ## 7. configuration writes -/
 
